@@ -920,18 +920,43 @@ func run(repo, dir string, seed uint64, tier, trimmer string) error {
 	if tier == "thorough" {
 		nProg, nHand, nR, nN, nA, nU, nTrim = 100000, 40000, 60000, 60000, 5000, 5000, 400
 	}
-	// fixed seeds of the search: the shapes DESIGN §7 suspects, always tried first
-	for _, src := range []string{"const string c = 'a\\\"b'\n", "const string c = \"\"\n", "struct S {}\nservice V {}\n"} {
+	// fixed seeds of the search, always tried first: the shapes DESIGN §7 suspects and the minimal inputs of
+	// every round-trip failure met so far (so that each run re-checks them whatever the seed)
+	one, i32 := 1, Ty{Name: "i32"}
+	_ = one
+	cst := func(t string, v CV) Prog { return Prog{Defs: []Def{{Kind: "const", Name: "a", Ty: Ty{Name: t}, Val: v}}} }
+	lit := func(q, raw string) CV { return CV{Kind: "lit", Lit: Lit{q, raw}} }
+	svc := func(f Func) Prog { f.Name, f.Void = "b", true; return Prog{Defs: []Def{{Kind: "service", Name: "a", Funcs: []Func{f}}}} }
+	zero := CV{Kind: "num", Num: "0"}
+	fixed := []Prog{
+		cst("string", lit("'", `a\"b`)), cst("string", lit("'", `\"`)), cst("string", lit(`"`, "##34;")), cst("string", lit(`"`, "#OUTQUOTES")),
+		cst("string", lit(`"`, "#OUTQUOTES#")), cst("string", lit(`"`, "")), cst("string", lit(`"`, `&amp; &#34; &lt; < # \\ 'x' \" &`)),
+		{Defs: []Def{{Kind: "typedef", Name: "a", Ty: Ty{Name: "i32", Anns: []Ann{{"a", Lit{`"`, "&"}}}}}}},
+		{Defs: []Def{{Kind: "typedef", Name: "a", Ty: Ty{Name: "list", V: &i32, Cpp: &Lit{`"`, "a"}}}}},
+		svc(Func{Args: []Field{{Ty: i32, Name: "c", Def: &zero}}}),
+		svc(Func{Args: []Field{{Ty: i32, Name: "c", Anns: []Ann{{"d", Lit{`"`, ""}}}}}}),
+		svc(Func{HasThr: true, Throws: []Field{{Ty: i32, Name: "c", Anns: []Ann{{"d", Lit{`"`, ""}}}}}}),
+		svc(Func{Args: []Field{{Ty: i32, Name: "c"}}, HasThr: true, Throws: []Field{{Ty: i32, Name: "d"}, {Ty: i32, Name: "e"}}}),
+		cst("i32", CV{Kind: "num", Num: "9223372036854775808.0"}), cst("double", CV{Kind: "num", Num: "1.0"}),
+		{Defs: []Def{{Kind: "", Cm: "// empty"}}},
+		{Incs: []Lit{{"'", `"`}}}, {Cpps: []Lit{{"'", `"`}}},
+		{Defs: []Def{{Kind: "struct", Name: "S"}, {Kind: "service", Name: "V"}}},
+	}
+	for _, p := range fixed {
+		src := p.Render()
 		v := checkSrc(src, true)
+		r.out.Count("program:fixed")
 		if a, err := safeParse("a.thrift", src); err == nil {
 			r.fileOp("fixed", a)
 		}
 		if v.Class != "" && v.Class != "gen-reject" {
 			r.out.Count("oracle-fail:" + v.Class)
-			p, ok := progOfSingleConst(src)
-			if ok {
-				r.report(p, v, true)
-			}
+			r.report(p, v, true)
+		}
+	}
+	for k := range r.out.Stats {
+		if strings.HasPrefix(k, "shrunk:") {
+			delete(r.out.Stats, k)
 		}
 	}
 	for i := 0; i < nProg; i++ {
@@ -965,16 +990,6 @@ func run(repo, dir string, seed uint64, tier, trimmer string) error {
 	}
 	r.out.Close()
 	return nil
-}
-
-func progOfSingleConst(src string) (Prog, bool) {
-	const pre = "const string c = "
-	s := strings.TrimSpace(src)
-	if !strings.HasPrefix(s, pre) || len(s) < len(pre)+2 {
-		return Prog{}, false
-	}
-	l := s[len(pre):]
-	return Prog{Defs: []Def{{Kind: "const", Name: "c", Ty: Ty{Name: "string"}, Val: CV{Kind: "lit", Lit: Lit{l[:1], l[1 : len(l)-1]}}}}}, true
 }
 
 // ---------------------------------------------------------------- trimmer binary on a multi-file project
